@@ -323,3 +323,93 @@ Definition tree_chain (base : N) (parents : list N) (badstart : option N) : chai
                    if known parents a && known parents b then DOk (anc_fuel fuel parents a b) else DErrOther
        | None => if known parents a && known parents b then DOk (anc_fuel fuel parents a b) else DErrOther
        end).
+
+(* ---- second round (audit): code paths of handleCommitMessage the first model left out ----
+   The collaborators can fail; handleCommitMessage propagates every such error:
+     HasFinalisedBlock           -> "checking for a finalized block in the block state"
+     GetHighestFinalisedHeader   -> "getting highest finalised header"  (inside
+                                    verifyCommitMessageJustification, after the length and set-id
+                                    checks, before IsDescendantOf)
+     SetFinalisedHash            -> "setting finalised hash"   (SetPrecommits is then NOT called)
+     SetPrecommits               -> "setting precommits"       (after SetFinalisedHash succeeded)
+   [finalised eff = Some x] / [stored eff = Some y] record that the CALL was made with these
+   arguments, whether or not it returned an error. *)
+Record faults := mkFaults {
+  f_has_err : bool;
+  f_hf_err : bool;
+  f_fin_err : bool;
+  f_store_err : bool
+}.
+Definition no_faults : faults := mkFaults false false false false.
+
+Inductive fres := FRes (r : hres) | FHasErr | FHfErr | FFinErr | FStoreErr.
+
+(* the two checks of verifyCommitMessageJustification that precede GetHighestFinalisedHeader *)
+Definition pre_len_setid (setid : N) (m : commit) : result unit :=
+  if negb (Nat.eqb (length (cm_precommits m)) (length (cm_authdata m))) then RErr ELen else
+  if negb (cm_setid m =? setid) then RErr ESetID else ROk tt.
+
+Definition handle_commit_f (fl : faults) (c : chain) (auths : list N) (setid : N) (has_finalised : bool)
+  (hf : N) (m : commit) : fres * effects :=
+  match hdr_num c (v_hash (cm_vote m)) with
+  | None => (FRes HNoTargetHeader, mkEff None None true)
+  | Some num =>
+    if negb (num =? v_num (cm_vote m)) then (FRes HTargetNum, no_effect) else
+    if f_has_err fl then (FHasErr, no_effect) else
+    if has_finalised then (FRes HAlreadyFinalised, no_effect) else
+    match pre_len_setid setid m with
+    | RErr x => (FRes (HRejected x), no_effect)
+    | ROk _ =>
+      if f_hf_err fl then (FHfErr, no_effect) else
+      match verify_commit c auths setid (threshold auths) hf m with
+      | RErr EDescStart => (FRes (HRejected EDescStart), mkEff None None true)
+      | RErr x => (FRes (HRejected x), no_effect)
+      | ROk _ =>
+        let fin := Some (v_hash (cm_vote m), cm_round m, setid) in
+        if f_fin_err fl then (FFinErr, mkEff fin None false) else
+        if f_store_err fl then (FStoreErr, mkEff fin (Some (cm_round m, cm_setid m)) false) else
+        (FRes HAccepted, mkEff fin (Some (cm_round m, cm_setid m)) false)
+      end
+    end
+  end.
+Definition freturns_nil (r : fres) : bool :=
+  match r with FRes r => returns_nil r | _ => false end.
+
+(* GetHeader can fail for a block IsDescendantOf knows (label [nohdr]): the ENoHeader branch of the
+   counting loop *)
+Definition tree_chain_h (base : N) (parents : list N) (badstart nohdr : option N) : chain :=
+  let c := tree_chain base parents badstart in
+  mkChain (fun h => match nohdr with
+                    | Some x => if h =? x then None else hdr_num c h
+                    | None => hdr_num c h
+                    end)
+          (is_desc c).
+
+(* ---- the specification in words (Prop level), proved equivalent to the boolean one ---- *)
+(* the commit lists, at some position, a precommit for [v] carrying authority key [k] whose
+   signature verifies for (precommit, v, commit round, current set id) *)
+Definition signed_by (m : commit) (k : N) (v : vote) : Prop :=
+  exists e, In e (entries m) /\ e_key e = k /\ e_vote e = v /\ e_ok e = true.
+(* "precommitted to the target or its descendants" *)
+Definition backs_target (c : chain) (m : commit) (k : N) : Prop :=
+  exists v, signed_by m k v /\ is_desc c (v_hash (cm_vote m)) (v_hash v) = DOk true.
+(* "signed two different valid precommits" *)
+Definition equivocates (m : commit) (k : N) : Prop :=
+  exists v1 v2, signed_by m k v1 /\ signed_by m k v2 /\ v1 <> v2.
+
+(* a precommit entry that makes the counting loop fail the whole message: correctly signed by a
+   current authority, ancestry decidable, but the header is missing or carries another number *)
+Definition entry_fault (c : chain) (auths : list N) (tgt : vote) (e : entry) : bool :=
+  verified auths e &&
+  match is_desc c (v_hash tgt) (v_hash (e_vote e)) with
+  | DOk _ => match hdr_num c (v_hash (e_vote e)) with
+             | None => true
+             | Some num => negb (num =? v_num (e_vote e))
+             end
+  | _ => false
+  end.
+
+(* the commit without the entries that fail verifyJustification *)
+Definition strip (auths : list N) (m : commit) : commit :=
+  let es := filter (verified auths) (entries m) in
+  mkCommit (cm_round m) (cm_setid m) (cm_vote m) (map fst es) (map snd es).
